@@ -67,7 +67,12 @@ with ThreadPoolExecutor(max_workers=14) as ex:
         if kind == 'seed':
             owncaught = [p for p, st, _ in out if p in own and st == 'CAUGHT']
             others = [p for p, st, _ in out if p not in own and st != 'silent']
-            print('%-18s %s%s' % (name, 'CAUGHT by ' + ','.join(owncaught) if owncaught else 'MISSED', ('  (also: ' + ','.join(others) + ')') if others else ''))
+            first = own[0] if own else None
+            tested_own = any(p == first for p, _, _ in out)
+            verdict = 'CAUGHT by ' + ','.join(owncaught) if owncaught else 'MISSED'
+            if owncaught and tested_own and first not in owncaught:
+                verdict = 'OWN-MISSED (' + first + '); caught by ' + ','.join(owncaught)
+            print('%-18s %s%s' % (name, verdict, ('  (also: ' + ','.join(others) + ')') if others else ''))
             for p, st, v in out:
                 if st != 'silent':
                     print('      %s %s %s' % (p, st, v))
